@@ -103,7 +103,8 @@ def oracle(rec, A):
             # numerical diffusion of low-order interpolation has spread the blob to the grid border:
             # the transport theorem needs interior support, stop comparing here
             return None
-        tol = (4e-3 * amp + 2e-4) if rec["lin"] else split
+        # (charge that reaches the zeroed border rows, 6 units away, drags the centroid: allow for what is missing)
+        tol = ((4e-3 * amp + 2e-4) if rec["lin"] else split) + 8.0 * abs(mk - m0) / abs(m0)
         if math.hypot(qk - v[0], pk - v[1]) > tol:
             return ("centroid after %d steps is (%.5f, %.5f); a rotation by 2*pi/%d per step (RF kick + drift) predicts "
                     "(%.5f, %.5f) [start (%.4f, %.4f), tolerance %.2e]" % (k, qk, pk, rec["steps"], v[0], v[1], q, p, tol))
